@@ -392,6 +392,12 @@ pub fn build_scenario(spec: SutSpec, state: &str, seed: u64, probe: Arc<dyn Prob
     Scenario { s, model, files, tab, http }
 }
 
+thread_local! {
+    /// C18's reading: an error answer means refused, and refused means nothing changed - used with
+    /// fault plans in which nothing fails at or after the commit
+    static STRICT_ERROR_MEANS_BEFORE: std::cell::Cell<bool> = const { std::cell::Cell::new(false) };
+}
+
 /// Run the faulted request (faults armed by the caller through `arm`/`disarm` closures) and judge.
 pub fn run_case(sc: &mut Scenario, op: &FOp, arm: &dyn Fn(), disarm: &dyn Fn() -> usize, vf: Option<&VfsFaults>) -> FaultOutcome {
     sc.s.sut.restore_files(&sc.files);
@@ -443,6 +449,9 @@ pub fn run_case(sc: &mut Scenario, op: &FOp, arm: &dyn Fn(), disarm: &dyn Fn() -
             class = "error->before";
         } else if is_after {
             class = "error->after";
+            if STRICT_ERROR_MEANS_BEFORE.with(|c| c.get()) {
+                violation = Some(("error-but-applied".to_string(), format!("request was refused ({:?}) although nothing failed at or after its commit, yet it is completely applied: {}", r, crate::sut::fmt_dump(&d))));
+            }
         } else {
             class = "error->partial";
             violation = Some(("partial-effect".to_string(), format!("request failed ({:?}) and left a state that is neither before nor after it: {}; anomalies {:?}", r, crate::sut::fmt_dump(&d), an)));
@@ -533,6 +542,7 @@ pub fn worker_main() {
             let double = task["double"].as_bool().unwrap_or(false);
             let window = task["window"].as_u64().unwrap_or(10) as usize;
             let only: Option<Value> = task.get("only").cloned().filter(|v| !v.is_null());
+            STRICT_ERROR_MEANS_BEFORE.with(|c| c.set(task["strict"].as_bool().unwrap_or(false)));
             let r = std::panic::catch_unwind(std::panic::AssertUnwindSafe(|| {
                 let tf = Arc::new(TraitFaults::default());
                 let mut sc = build_scenario(spec, &state, seed, tf.clone());
